@@ -192,7 +192,7 @@ func genC15(r *core.Run, i int) *c15Case {
 			pool = append(pool, 0xc000000000+uint64(rr.Intn(4*np+4))*8)
 		}
 	}
-	cfg := &gen.Cfg{MaxG: 6, MaxFrames: 5, MaxDepth: 4, MaxArgs: 5, PtrPool: pool}
+	cfg := &gen.Cfg{MaxG: 6, MaxFrames: 5, MaxDepth: 5, MaxArgs: 5, PtrPool: pool}
 	if np >= 60 {
 		cfg.MaxG, cfg.MaxFrames, cfg.MaxArgs = 12, 10, 8
 	}
